@@ -893,6 +893,9 @@ func unop(fr *frame, instr *ssa.UnOp, x value) value {
 			return -x
 		}
 	case token.MUL:
+		if n, ok := x.(native); ok {
+			return n // opaque external object: *p and p share the wrapper
+		}
 		px := x.(*value)
 		if px == nil {
 			panic(targetPanic{iface{fr.i.runtimeErrorString, "invalid memory address or nil pointer dereference"}})
